@@ -188,7 +188,8 @@ class Repo:
                             reviewed = set()
                         else:
                             reviewed = None
-                        al = normalise.inline_new_aliases(child, reviewed)
+                        cl = normalise.inline_new_closures(child, reviewed)
+                        al = [c + "()" for c in cl] + normalise.inline_new_aliases(child, reviewed)
                         if normalise.raise_new_accumulators(child, reviewed):
                             ast.fix_missing_locations(child)
                             al = al + normalise.inline_new_aliases(child, reviewed) + ["<accumulator loop>"]
